@@ -24,13 +24,13 @@ TRACE_REGS = 3  # Trace_C13 / impl_c13 always carry 1 + 3 registry slots
 
 
 def _strip(e):
-    keep = ("op", "r", "r2", "new", "sym", "scale", "pfx", "str", "str2", "defs", "usys", "deep", "bypass", "fn", "warm", "how")
+    keep = ("op", "r", "r2", "new", "sym", "scale", "pfx", "str", "str2", "defs", "usys", "deep", "bypass", "fn", "warm", "how", "sys")
     return {k: v for k, v in e.items() if k in keep}
 
 
 def _short(e):
     s = _strip(e)
-    txt = " ".join(f"{k}={s[k]}" for k in ("op", "fn", "how", "r", "r2", "new", "sym", "str", "str2", "scale", "pfx", "defs", "usys", "deep", "bypass", "warm") if k in s)
+    txt = " ".join(f"{k}={s[k]}" for k in ("op", "fn", "how", "sys", "r", "r2", "new", "sym", "str", "str2", "scale", "pfx", "defs", "usys", "deep", "bypass", "warm") if k in s)
     return txt + " -> " + str(e.get("obs", {}).get("k", "")) + (":" + e["exc"] if e.get("exc") else "")
 
 
@@ -82,7 +82,7 @@ def _nontrivial(h):
     """A history exercises C13 non-trivially when a second registry exists while something is done through
     another one (so the frame clause has something to protect) or the default registry is asked to change."""
     return any(e["op"] in ("binop", "rebind", "convert") or (e["r"] == 0 and e["op"] in ("modify", "remove")) for e in h) or (
-        sum(1 for e in h if e["op"] in ("new", "lutalias", "lutcopy", "json", "deepcopy", "unpickle", "unitcopy", "handle")) >= 1 and len(h) >= 2
+        sum(1 for e in h if e["op"] in ("new", "lutalias", "lutcopy", "json", "deepcopy", "unpickle", "unitcopy", "handle", "picklereg")) >= 1 and len(h) >= 2
     )
 
 
@@ -94,8 +94,8 @@ def _model_verdicts(ck, res, label):
         ck.note({"model_counterexample": r["tag"], "history": [_short(e) for e in r["h"]]})
 
 
-SLIM = dict(ConvHows='{"to"}', HandleH='{"copyreg", "unitcopy"}', PickleP='{"kfoo", "m"}', DPfx="{TRUE}", DScales="{2}", AddScales="{2}", ModScales="{4}", ReadKeys='{"kfoo", "km"}', ReadProbes='{"kfoo", "kfoo/km"}', BinP='{"foo", "m"}', BinF='{"mul", "add"}', CopyP='{"kfoo"}')
-FULL = dict(ConvHows='{"to", "in_units", "to_value", "convert_to_units"}', HandleH='{"copyreg", "unitcopy"}', PickleP='{"foo", "kfoo", "m", "km"}', DPfx="{FALSE, TRUE}", DScales="{2, 4}", AddScales="{2, 4}", ModScales="{2, 4}", ReadKeys='{"foo", "kfoo", "m", "km"}', ReadProbes='{"foo", "kfoo", "m", "km", "foo*m", "kfoo/km"}', BinP='{"foo", "kfoo", "m"}', BinF='{"mul", "div", "add"}', CopyP='{"foo", "kfoo", "m"}')
+SLIM = dict(ConvHows='{"to"}', PickleH='{"registry"}', InBaseQ='{"km", "m"}', InBaseS='"slim"', HandleH='{"copyreg", "unitcopy"}', PickleP='{"m"}', DPfx="{TRUE}", DScales="{2}", AddScales="{2}", ModScales="{4}", ReadKeys='{"kfoo"}', ReadProbes='{"kfoo/km"}', BinP='{"foo", "m"}', BinF='{"mul", "add"}', CopyP='{"kfoo"}')
+FULL = dict(ConvHows='{"to", "in_units", "to_value", "convert_to_units"}', PickleH='{"registry", "unit"}', InBaseQ='{"km", "m", "foo"}', InBaseS='"full"', HandleH='{"copyreg", "unitcopy"}', PickleP='{"foo", "kfoo", "m", "km"}', DPfx="{FALSE, TRUE}", DScales="{2, 4}", AddScales="{2, 4}", ModScales="{2, 4}", ReadKeys='{"foo", "kfoo", "m", "km"}', ReadProbes='{"foo", "kfoo", "m", "km", "foo*m", "kfoo/km"}', BinP='{"foo", "kfoo", "m"}', BinF='{"mul", "div", "add"}', CopyP='{"foo", "kfoo", "m"}')
 
 
 def _write_cfg(ck, name, MaxRegs=2, MaxLen=3, ExportLen=3, Mixed="TRUE", Namespaces="TRUE", Editing="TRUE", WarmSet="{FALSE}", export="state", alphabet=None):
@@ -164,7 +164,7 @@ def run(ck):
     ]
     if quick:
         # mixed operations: creation route hidden, histories ending in a binary operation / re-binding / conversion
-        covers.append(("mixed3-slim", dict(MaxRegs=2, MaxLen=3, ExportLen=3, Namespaces="FALSE", alphabet=dict(SLIM, BinF='{"mul", "div", "add"}', PickleP='{"kfoo"}'), export="mixed"),
+        covers.append(("mixed3-slim", dict(MaxRegs=2, MaxLen=3, ExportLen=3, Namespaces="FALSE", alphabet=dict(SLIM, BinF='{"mul", "div", "add"}', PickleP='{"kfoo"}', PickleH="{}", InBaseS='"none"'), export="mixed"),
                        "state space MaxRegs=2 MaxLen=3 with mixed operations, slim alphabet, cover of the states reached by a mixed operation"))
         ck.cov["bound"] = [{"MaxRegs": 2, "MaxLen": 3, "alphabet": "slim, no namespaces", "mixed": False, "routes_visible": True}, {"MaxRegs": 2, "MaxLen": 3, "alphabet": "slim", "mixed": True, "routes_visible": False}]
     else:
